@@ -23,7 +23,7 @@ LEVEL_TEXT = ("Random points of the quantified parameter box (N 1-60, theta_s (0
 LEVEL_NOTE = "Tolerances 1e-9*h on depth identities; N = 1 has no level pair: index validity is required only where the weight is non-zero. Trusts icontract (evaluation counts reported; zero => inconclusive)."
 RULE = ("case = chunk of random parameter points; every point calls s_stretch (rho,w), sdepth (rho,w) and z2s for ~40 depths per column; some chunks build a real "
         "ROMS.Grid from a generated file and from Vinfo. Non-trivial point: N >= 2 and stretched (theta_s > 0.5); distinct by rounded parameters.")
-MANDATORY = ["z2s_result_kept_over_a_second_lookup", "grid_file_with_Tcline", "bathymetry_not_c_contiguous", "z2s_calls_over_many_cells", "post_s_stretch", "post_sdepth", "post_z2s", "vtransform1", "vtransform2", "vstretching1", "vstretching2", "vstretching4",
+MANDATORY = ["vinfo_with_hc_zero_on_a_file_with_hc", "vinfo_with_another_hc_than_the_file", "z2s_result_kept_over_a_second_lookup", "grid_file_with_Tcline", "bathymetry_not_c_contiguous", "z2s_calls_over_many_cells", "post_s_stretch", "post_sdepth", "post_z2s", "vtransform1", "vtransform2", "vstretching1", "vstretching2", "vstretching4",
              "depth_above_surface", "depth_below_bottom", "depth_on_level", "grid_from_file", "grid_from_vinfo", "N1", "vinfo_dictionary_reused", "grid_file_without_Vtransform", "grid_file_with_Vstretching"]
 ASSUMPTIONS = ["zeta = 0 (ladim ignores sea-surface elevation)", "Vtransform 1 only with hc <= min(h), as the property quantifies"]
 TIMEOUT = {"quick": 600, "thorough": 3000}
@@ -250,8 +250,13 @@ def run_case(case: dict[str, Any], wd: Path) -> dict[str, Any]:
         vinfo = dict(N=p["N"], hc=hc, theta_s=p["theta_s"], theta_b=p["theta_b"], Vstretching=p["Vstretching"], Vtransform=p["Vtransform"])
         vinfo_before = dict(vinfo)
         # the same Vinfo dictionary is used for several Grids (whole grid, then a subgrid): they must describe the same levels
+        # a Vinfo that says something else than the file (hc = 0, i.e. pure sigma levels, or half the file's hc; another theta_s): Vinfo decides
+        vinfo2 = dict(vinfo, hc=0.0 if case["idx"] % 2 == 0 else 0.5 * hc, theta_s=0.7 * p["theta_s"] + 0.3)
+        S2, C2 = W.stretching(p["N"], vinfo2["theta_s"], p["theta_b"], "rho", p["Vstretching"])
+        zr2 = W.level_depths(w["G"]["h"], vinfo2["hc"], S2, C2, p["Vtransform"])
         for label, kw, sub_ in (("grid_from_file", dict(), sub), ("grid_from_vinfo", dict(Vinfo=vinfo), sub),
-                                ("grid_from_vinfo_again", dict(Vinfo=vinfo), [2, 7, 1, 6] if sub is None else None)):
+                                ("grid_from_vinfo_again", dict(Vinfo=vinfo), [2, 7, 1, 6] if sub is None else None),
+                                ("grid_from_vinfo_differing_from_the_file", dict(Vinfo=vinfo2), sub)):
             g = guarded(f"ROMS.Grid ({label})", p, R.Grid, filename=str(w["gridfile"]), subgrid=sub_, **kw)
             if g is None:
                 continue
@@ -268,7 +273,12 @@ def run_case(case: dict[str, Any], wd: Path) -> dict[str, Any]:
             zr_ref = w["G"]["zr"][:, g.J, g.I]
             if label == "grid_from_file" and np.max(np.abs(g.z_r - zr_ref)) > 1e-9 * hmax:
                 V.append(C.viol(f"{label}: z_r differs from the levels implied by the file (max {np.max(np.abs(g.z_r - zr_ref))})", params=p))
-            if label.startswith("grid_from_vinfo"):
+            if label == "grid_from_vinfo_differing_from_the_file":
+                bump("vinfo_with_hc_zero_on_a_file_with_hc" if vinfo2["hc"] == 0.0 and hc > 0 else "vinfo_with_another_hc_than_the_file")
+                if p["Vstretching"] in (1, 4) and not np.max(np.abs(g.z_r - zr2[:, g.J, g.I])) <= 1e-6 * hmax:
+                    V.append(C.viol(f"{label}: Vinfo gives hc = {vinfo2['hc']}, theta_s = {vinfo2['theta_s']:.4f} (the file has hc = {hc}, theta_s = {p['theta_s']:.4f}); z_r of the Grid differs from "
+                                    f"the levels of Vinfo's set-up by up to {np.max(np.abs(g.z_r - zr2[:, g.J, g.I])):.4g} m (Grid.hc = {getattr(g, 'hc', None)})", params=p))
+            elif label.startswith("grid_from_vinfo"):
                 # Vinfo repeats the file's own vertical set-up here, so the levels must be the file's (to rounding of the two stretching implementations)
                 if p["Vstretching"] in (1, 4) and np.max(np.abs(g.z_r - zr_ref)) > 1e-6 * hmax:
                     V.append(C.viol(f"{label}: z_r of a Grid built from Vinfo differs from the levels of the same vertical set-up (max {np.max(np.abs(g.z_r - zr_ref)):.4g} m)", params=p))
